@@ -114,15 +114,18 @@ pub fn opt_lines(rng: &mut Rng, maxvars: usize, maxops: usize) -> Vec<String> {
             rng.shuffle(&mut dec);
             dec.truncate(kd);
             let us: Vec<u64> = util.iter().map(|_| rng.below(11)).collect();
+            // utility carried by the negative literal of a utility variable (one case in two)
+            let uls: Vec<u64> = util.iter().map(|_| if rng.coin() { rng.below(11) } else { 0 }).collect();
             let pr: Vec<u64> = (0..n).map(|_| rng.below(9)).collect();
             let head = format!(
-                "opt kind=meu n={} order={} d={} dec={} util={} us={} pr={}",
+                "opt kind=meu n={} order={} d={} dec={} util={} us={} uls={} pr={}",
                 n,
                 csv(&prog.order),
                 bdd_raw_string(d),
                 csv(&dec),
                 csv(&util),
                 csv(&us),
+                csv(&uls),
                 csv(&pr)
             );
             let r = guarded(|| {
@@ -131,7 +134,7 @@ pub fn opt_lines(rng: &mut Rng, maxvars: usize, maxops: usize) -> Vec<String> {
                     let wv = if dec.contains(&v) {
                         (ExpectedUtility(1.0, 0.0), ExpectedUtility(1.0, 0.0))
                     } else if let Some(i) = util.iter().position(|&u| u == v) {
-                        (ExpectedUtility(1.0, 0.0), ExpectedUtility(1.0, us[i] as f64))
+                        (ExpectedUtility(1.0, uls[i] as f64), ExpectedUtility(1.0, us[i] as f64))
                     } else {
                         (ExpectedUtility(pr[v] as f64 / 8.0, 0.0), ExpectedUtility(1.0 - pr[v] as f64 / 8.0, 0.0))
                     };
